@@ -19,7 +19,9 @@ import z3
 
 ROOT = os.path.dirname(os.path.dirname(os.path.abspath(__file__)))
 REPLAY_DIR = os.path.join(ROOT, "replay", "out")
-EVIDENCE_DIR = os.path.join(ROOT, "evidence")
+# PYVC_EVIDENCE_DIR: where runs against a scratch copy of the repository (seeded changes, refactorings) write their
+# evidence, so that the committed evidence always comes from /repo itself
+EVIDENCE_DIR = os.environ.get("PYVC_EVIDENCE_DIR") or os.path.join(ROOT, "evidence")
 KNOWN_FINDINGS = os.path.join(ROOT, "known_findings.jsonl")
 
 
